@@ -1,5 +1,6 @@
 import J5V.Print.OptionText
 import J5V.Print.TextString
+import J5V.Print.Scalar
 /-!
 # C05 kernel 5 — the element walk and the layout of a whole file (core only)
 
@@ -184,7 +185,7 @@ def FieldD.popts (f : FieldD) : List POpt :=
 /-- `printField` / `printEnumValue` on a builder with indentation `n` -/
 def fieldCmds (n : Nat) (f : FieldD) : List Cmd :=
   leadingCmds n f.loc ++
-  (fieldStyle n f.head (toString f.number) f.popts (inlineComment f.loc)).map Cmd.line ++
+  (fieldStyle n f.head (Scalar.formatInt f.number) f.popts (inlineComment f.loc)).map Cmd.line ++
   trailingCmds n f.loc
 
 /-- message / enum / service / oneof (`block`), field / enum value, method -/
